@@ -74,9 +74,12 @@ def build_synced_array(rng, tag, cfg=None, variant="plain", rounds=None, want_mi
 class Template:
     """cp -a image of an array root; restore() puts it back under the same path."""
 
+    _n = 0
+
     def __init__(self, a):
+        Template._n += 1
         self.root = a.root
-        self.tpl = a.root + ".tpl"
+        self.tpl = a.root + ".tpl%d" % Template._n
         subprocess.check_call(["cp", "-a", self.root, self.tpl])
 
     def restore(self):
